@@ -569,6 +569,65 @@ pub fn literals() -> Vec<Lit> {
     for f in ["05", "005", "0625", "1234", "123456", "000001", "999999"] {
         out.push(dt(2021, 6, 15, 12, 30, &format!("15.{}", f), "fractional-second-digits", "DT"));
     }
+    // ---- every field value: the fields of a time of day, a date and a date-and-time swept over their whole
+    // range and one or two values beyond it, written with and without leading zeros
+    for h in 0..=25u64 {
+        for m in 0..=61u64 {
+            for sec in 0..=61u64 {
+                // the complete cube for the padded form; the unpadded form on the planes through a corner
+                out.push(tod(h, m, &format!("{:02}", sec), "field-sweep", "TOD"));
+                if (h < 2 || m < 2 || sec < 2) && (h < 10 || m < 10 || sec < 10) {
+                    let mut l = tod(h, m, &format!("{}", sec), "field-sweep/no-leading-zeros", "TOD");
+                    l.pieces = vec!["TOD".into(), "#".into(), format!("{}", h), ":".into(), format!("{}", m), ":".into(), format!("{}", sec)];
+                    out.push(l);
+                }
+            }
+        }
+    }
+    for y in [1u64, 4, 100, 400, 1600, 1900, 1970, 1999, 2000, 2023, 2024, 2100, 2400, 9999] {
+        for m in 0..=13u64 {
+            for d in 0..=32u64 {
+                out.push(date(y, m, d, "field-sweep", "D"));
+                if m < 10 || d < 10 {
+                    let mut l = date(y, m, d, "field-sweep/no-leading-zeros", "D");
+                    l.pieces = vec!["D".into(), "#".into(), format!("{}", y), "-".into(), format!("{}", m), "-".into(), format!("{}", d)];
+                    out.push(l);
+                }
+            }
+        }
+    }
+    for y in [2023u64, 2024] {
+        for mo in 0..=13u64 {
+            for d in [0u64, 1, 28, 29, 30, 31, 32] {
+                for h in [0u64, 23, 24] {
+                    for mi in [0u64, 59, 60] {
+                        for sec in ["00", "59", "60", "59.999999"] {
+                            out.push(dt(y, mo, d, h, mi, sec, "field-sweep", "DT"));
+                        }
+                    }
+                }
+            }
+        }
+    }
+    // ---- every digit: each digit character in each base, alone and after another digit; a digit the base
+    // does not have makes the text something that is no integer literal (it must not come out as a value)
+    for base in [2u32, 8, 10, 16] {
+        for dch in "0123456789ABCDEF".chars() {
+            let dv = dch.to_digit(16).unwrap();
+            if base == 10 && dv >= 10 {
+                continue; // `A` alone is an identifier, `1A` is covered by the lexical-structure texts of C08
+            }
+            for (shape, body) in [("alone", format!("{}", dch)), ("second", format!("1{}", dch)), ("first", format!("{}0", dch)), ("after-underscore", format!("1_{}", dch))] {
+                let tok = if base == 10 { body.clone() } else { format!("{}#{}", base, body) };
+                let expect = if dv < base {
+                    Expect::Value(int_nt(u128::from_str_radix(&body.replace('_', ""), base).unwrap(), false, None))
+                } else {
+                    Expect::Reject("digit not in the base")
+                };
+                out.push(Lit { label: format!("int/base{}/every-digit/{}{}", base, shape, if dv < base { "" } else { "/digit-not-in-base" }), type_text: "LINT", pieces: vec![tok], expect, address: false });
+            }
+        }
+    }
     // ---- strings
     for (label, body) in [("empty", ""), ("ascii", "hello world"), ("other-quote", "say \"hi\""), ("two-byte", "Z\u{e4}hler"), ("three-byte", "5 \u{20ac}"), ("four-byte", "\u{1F600} ok"), ("punctuation", "a;b:=c(*d*)")] {
         for prefix in [false, true] {
